@@ -4,7 +4,7 @@ From Coq Require Import String.
 From Coq Require Import List ZArith Arith.
 Import ListNotations.
 Local Open Scope string_scope.
-From YP Require Import Base.Str Term.Term Term.Show Unify.Unify Engine.Db Engine.DbCursor Engine.DbFacts.
+From YP Require Import Base.Str Term.Term Term.Show Unify.Unify Engine.Db Engine.DbCursor Engine.DbFacts Engine.DbHeap.
 
 Definition args_obs (a : list term) : obs := OL (map term_obs a).
 
@@ -45,3 +45,28 @@ Proof.
   - destruct (step mt s e) as [[s1 o]|]; [|discriminate].
     destruct (run mt s1 r) as [[s2 os]|] eqn:E; [|discriminate]. inversion H; subst. simpl. f_equal. eauto.
 Qed.
+
+(* ------------------------------------------------------------------ heap machine (C13) *)
+Definition hout_obs (o : hout) : obs :=
+  match o with
+  | HOk => otag "ok" []
+  | HFail => otag "fail" []
+  | HEnd => otag "end" []
+  | HBad => otag "bad" []
+  | HAns a => otag "ans" [args_obs a]
+  | HSeen a => otag "seen" [args_obs a]
+  | HAll l => otag "all" [OL (map args_obs l)]
+  end.
+
+Fixpoint hrun_obs (fuel : nat) (h : hst) (ops : list hop) : list obs :=
+  match ops with
+  | [] => []
+  | o :: r =>
+      match hstep fuel h o with
+      | None => [otag "stuck" []]
+      | Some (h1, x) => hout_obs x :: hrun_obs fuel h1 r
+      end
+  end.
+
+(* p = number of program variables (cells 0..p-1) *)
+Definition run_heap (fuel : nat) (p : nat) (ops : list hop) : obs := OL (hrun_obs fuel (hinit p) ops).
